@@ -471,6 +471,7 @@ func TestSched(t *testing.T) {
 	runPlans(t)
 	runValidate(t)
 	runDeploy(t)
+	runRealloc(t)
 }
 
 func mkNode(cores int, share int, used map[string]int, mem, umem int64) *ctypes.NodeResourceInfo {
@@ -911,4 +912,217 @@ func runDeploy(t *testing.T) {
 		}
 	}
 	r.Finish("corpus, then random Validate-accepted nodes stored through Plugin.SetNodeResourceInfo on embedded etcd; 75% cpu-bind requests on the decimal grid, memory request none/small/near free/above free, limits above and below requests, a few invalid requests; share base / max share from {100/-1, 100/2, 100/1, 10/-1, 1000/3, 1/-1, 7/-1}; count 0-6. Each case: GetNodesDeployCapacity, CalculateDeploy, SetNodeResourceUsage(workloads, incr), GetNodeResourceInfo. Non-trivial = deploy succeeded with count > 0")
+}
+
+// ---------- stream "realloc": Plugin.CalculateRealloc ----------
+
+type reallocCase struct {
+	info     *ctypes.NodeResourceInfo
+	base     int
+	maxShare int
+	origin   *ctypes.WorkloadResource
+	raw      map[string]any
+	label    string
+}
+
+func wrToRaw(w *ctypes.WorkloadResource) map[string]any {
+	return map[string]any{"cpu_request": w.CPURequest, "cpu_limit": w.CPULimit, "memory_request": w.MemoryRequest,
+		"memory_limit": w.MemoryLimit, "cpu_map": map[string]int(w.CPUMap), "numa_memory": map[string]int64(w.NUMAMemory), "numa_node": w.NUMANode}
+}
+
+func reallocErrClass(err error) string {
+	switch {
+	case errors.Is(err, ctypes.ErrInvalidMemory):
+		return "(Some RErrInvalidMemory)"
+	case errors.Is(err, ctypes.ErrInvalidCPU):
+		return "(Some RErrInvalidCPU)"
+	case errors.Is(err, coretypes.ErrInsufficientResource):
+		return "(Some RErrInsufficientResource)"
+	case errors.Is(err, coretypes.ErrInsufficientCapacity):
+		return "(Some RErrInsufficientCapacity)"
+	}
+	return "None"
+}
+
+// genOrigin builds a workload that plausibly lives on the node and makes the
+// node's usage include it.
+func (g gen) genOrigin(info *ctypes.NodeResourceInfo, base int) *ctypes.WorkloadResource {
+	w := &ctypes.WorkloadResource{CPUMap: ctypes.CPUMap{}, NUMAMemory: ctypes.NUMAMemory{}}
+	n := len(info.Capacity.CPUMap)
+	pieces := 0
+	if g.chance(0.7) { // bound
+		for i := 0; i < 1+g.intn(2); i++ {
+			id := strconv.Itoa(g.intn(n))
+			c := info.Capacity.CPUMap[id]
+			if c <= 0 {
+				continue
+			}
+			p := base
+			if g.chance(0.4) || p > c {
+				p = 1 + g.intn(int(min64(int64(base), int64(c))))
+			}
+			w.CPUMap[id] = p
+			if info.Usage.CPUMap[id] < p {
+				info.Usage.CPUMap[id] = p
+			}
+		}
+		for _, p := range w.CPUMap {
+			pieces += p
+		}
+		w.CPURequest = float64(pieces) / float64(base)
+		w.CPULimit = w.CPURequest
+	} else {
+		w.CPURequest = float64(g.intn(200)) / 100
+		w.CPULimit = w.CPURequest
+	}
+	w.MemoryRequest = int64(g.pick(0, 10, 100, 200))
+	w.MemoryLimit = w.MemoryRequest
+	if info.Usage.Memory < w.MemoryRequest {
+		info.Usage.Memory = w.MemoryRequest
+	}
+	// NUMA node of the workload: the node of its cores when they agree
+	if len(w.CPUMap) > 0 && len(info.Capacity.NUMA) > 0 && g.chance(0.8) {
+		node := ""
+		same := true
+		for _, id := range vh.SortedKeys(w.CPUMap) {
+			nn := info.Capacity.NUMA[id]
+			if node == "" {
+				node = nn
+			} else if nn != node {
+				same = false
+			}
+		}
+		if same && node != "" {
+			w.NUMANode = node
+			w.NUMAMemory[node] = w.MemoryRequest
+			if info.Usage.NUMAMemory[node] < w.MemoryRequest && info.Capacity.NUMAMemory[node] >= w.MemoryRequest {
+				info.Usage.NUMAMemory[node] = w.MemoryRequest
+			}
+		}
+	}
+	return w
+}
+
+func runRealloc(t *testing.T) {
+	r := vh.New(t, vh.PropEnv("C04"), "realloc")
+	r.Coq("From Verif Require Import Base.GoFloat Cpumem.Types Cpumem.Schedule Cpumem.Calc Cpumem.SchedCase.\nClose Scope Z_scope.", "SchedCase.rcase", "SchedCase.r_agree", okFor("r"))
+	g := gen{r}
+	ctx := context.Background()
+	pls := &plugins{t: t, ctx: ctx, m: map[[2]int]*cpumem.Plugin{}}
+	seq := 0
+	timeouts := 0
+
+	type robs struct {
+		err        error
+		ep         *ctypes.EngineParams
+		delta, new *ctypes.WorkloadResource
+	}
+	emit := func(c reallocCase) {
+		seq++
+		name := fmt.Sprintf("r%d", seq)
+		pl := pls.get(c.base, c.maxShare)
+		if _, err := pl.SetNodeResourceInfo(ctx, name, nrToRaw(c.info.Capacity), nrToRaw(c.info.Usage)); err != nil {
+			r.Count("node_rejected_by_plugin")
+			return
+		}
+		parsed := &ctypes.WorkloadResourceRequest{}
+		_ = parsed.Parse(c.raw)
+		o := guarded(func() robs {
+			resp, err := pl.CalculateRealloc(ctx, name, wrToRaw(c.origin), c.raw)
+			if err != nil {
+				return robs{err: err}
+			}
+			x := robs{ep: &ctypes.EngineParams{}, delta: &ctypes.WorkloadResource{}, new: &ctypes.WorkloadResource{}}
+			if err := mapstructure.Decode(resp.EngineParams, x.ep); err != nil {
+				panic("harness: cannot decode engine params: " + err.Error())
+			}
+			if err := x.delta.Parse(resp.DeltaResource); err != nil {
+				panic("harness: cannot decode delta: " + err.Error())
+			}
+			if err := x.new.Parse(resp.WorkloadResource); err != nil {
+				panic("harness: cannot decode workload resource: " + err.Error())
+			}
+			return x
+		})
+		_, _ = pl.RemoveNode(ctx, name)
+		var obs, class string
+		var tags []string
+		switch {
+		case o.timeout:
+			obs, class = "RTimeout", "timeout"
+			timeouts++
+		case o.panicMsg != "":
+			if strings.HasPrefix(o.panicMsg, "harness:") {
+				t.Fatalf("%s", o.panicMsg)
+			}
+			obs, class = "(RPanic "+coqReason(o.panicMsg)+")", "panic"
+		case o.val.err != nil:
+			obs, class = "(RErr "+reallocErrClass(o.val.err)+")", "error"
+			r.Count("error=" + reallocErrClass(o.val.err))
+		default:
+			obs = fmt.Sprintf("(ROk %s %s %s)", coqEP(o.val.ep), coqWR(o.val.delta), coqWR(o.val.new))
+			class = "ok"
+			tags = []string{o.val.new.NUMANode}
+		}
+		order := numaOrder(c.info, tags)
+		term := fmt.Sprintf("(mkR %s %s %s %s %s %s %s)", coqNI(c.info), vh.ZI(c.base), vh.ZI(c.maxShare), coqWR(c.origin), coqReq(parsed), strList(order), obs)
+		desc := map[string]any{"label": c.label, "capacity": c.info.Capacity, "usage": c.info.Usage, "share_base": c.base, "max_share": c.maxShare,
+			"origin": c.origin, "request": c.raw, "outcome": class, "panic": o.panicMsg, "new": o.val.new, "delta": o.val.delta, "numa_order": order}
+		r.Count("outcome=" + class)
+		r.Count(fmt.Sprintf("origin_bound=%v", len(c.origin.CPUMap) > 0))
+		r.Count(fmt.Sprintf("keep=%v bind=%v", parsed.KeepCPUBind, parsed.CPUBind))
+		r.Add(term, desc, map[string]any{"stream": "realloc"}, class == "ok")
+	}
+
+	// corpus
+	{
+		n := withNUMA(mkNode(4, 100, map[string]int{"0": 100, "1": 30}, 1000, 100), 2, 500)
+		n.Usage.NUMAMemory["0"] = 100
+		w := &ctypes.WorkloadResource{CPURequest: 1.3, CPULimit: 1.3, MemoryRequest: 100, MemoryLimit: 100,
+			CPUMap: ctypes.CPUMap{"0": 100, "1": 30}, NUMAMemory: ctypes.NUMAMemory{"0": 100}, NUMANode: "0"}
+		emit(reallocCase{info: n, base: 100, maxShare: -1, origin: w, raw: map[string]any{"keep-cpu-bind": true, "cpu-request": 0.2, "memory-request": int64(50)}, label: "keep-bind-grow"})
+		emit(reallocCase{info: copyNI(n), base: 100, maxShare: -1, origin: w, raw: map[string]any{"keep-cpu-bind": true, "cpu-request": -0.3}, label: "keep-bind-shrink"})
+		emit(reallocCase{info: copyNI(n), base: 100, maxShare: -1, origin: w, raw: map[string]any{"cpu-bind": false, "memory-request": int64(10)}, label: "unbind"})
+		emit(reallocCase{info: copyNI(n), base: 100, maxShare: -1, origin: w, raw: map[string]any{"keep-cpu-bind": true, "cpu-request": 9.0}, label: "too-much"})
+		emit(reallocCase{info: copyNI(n), base: 100, maxShare: -1, origin: w, raw: map[string]any{"keep-cpu-bind": true, "cpu-request": -1.299}, label: "shrink-below-one-piece"})
+	}
+	n := r.N(300, 6000)
+	cfgs := [][2]int{{100, -1}, {100, -1}, {100, 2}, {10, -1}, {1000, 3}}
+	for i := 0; i < n && timeouts < 3; i++ {
+		cf := cfgs[g.intn(len(cfgs))]
+		base, maxShare := cf[0], cf[1]
+		info := g.node(base, nodeOpts{maxCores: 8})
+		origin := g.genOrigin(info, base)
+		raw := map[string]any{}
+		switch g.intn(3) {
+		case 0:
+			raw["keep-cpu-bind"] = true
+		case 1:
+			raw["cpu-bind"] = true
+		}
+		switch g.intn(4) {
+		case 0:
+			raw["cpu-request"] = float64(g.intn(3*base)) / float64(base)
+		case 1:
+			raw["cpu-request"] = -float64(g.intn(base)) / float64(base)
+		case 2:
+			raw["cpu-request"] = -origin.CPURequest
+		}
+		if g.chance(0.3) {
+			raw["cpu-limit"] = float64(g.intn(2*base)) / float64(base)
+		}
+		switch g.intn(4) {
+		case 0:
+			raw["memory-request"] = int64(g.intn(300))
+		case 1:
+			raw["memory-request"] = -int64(g.intn(150))
+		case 2:
+			raw["memory-request"] = g.memRequest(info)
+		}
+		if g.chance(0.2) {
+			raw["memory-limit"] = int64(g.intn(400)) - 100
+		}
+		emit(reallocCase{info: info, base: base, maxShare: maxShare, origin: origin, raw: raw, label: "random"})
+	}
+	r.Finish("corpus (keep-bind grow/shrink, unbind, too much, shrink below one piece), then random Validate-accepted nodes with an origin workload (70% bound to 1-2 cores of the node, usage raised to include it, NUMA node recorded when its cores agree) and request deltas (cpu +/-/to zero, memory +/-), keep-cpu-bind / cpu-bind / neither; Plugin.CalculateRealloc through the public API on embedded etcd. Non-trivial = realloc succeeded")
 }
